@@ -366,6 +366,8 @@ def np_call(ev, name, args, kwargs, node):
             c, s1, s2 = side.args
             return ite(c, np_call(ev, name, [a, v, s1], {}, node), np_call(ev, name, [a, v, s2], {}, node))
         return App("searchsorted", (a, v, side))
+    if name == "hstack" and A and isinstance(A[0], (Lst, Tup)):
+        name = "concatenate"
     if name == "concatenate":
         x = arg(0)
         if isinstance(x, (Lst, Tup)):
@@ -504,6 +506,15 @@ def _is_full_slice(i):
 def _block_sum(ev, xv, axis):
     """sum(B[..., k, :, :], axis=(-1,-2)) for a buffer B of shape (..., 2, 2) = sum of the four cells read from B."""
     if not (isinstance(axis, Tup) and sorted(const_of(a) for a in axis.items if is_const(a)) == [-2, -1]):
+        return None
+    if isinstance(xv, App) and xv.fn == "store":
+        sh = shape_of(xv)
+        if sh is not None and len(sh.items) >= 2 and sh.items[-1] == Const(2) and sh.items[-2] == Const(2):
+            tot = Const(0)
+            for a in (0, 1):
+                for b in (0, 1):
+                    tot = add(tot, getitem(ev, xv, Tup([Const(Ellipsis), Const(a), Const(b)])))
+            return tot
         return None
     if not (isinstance(xv, App) and xv.fn == "getitem" and isinstance(xv.args[1], Tup)):
         return None
